@@ -1,3 +1,10 @@
+/-
+C27: theory of the abstract state machine `specStep` (Substrate `check_equivocation`) of Model/C27:
+step characterisation (`sstep_cases`), the reachable-state invariant `Inv` (provenance of every stored
+entry, one entry per signer and slot, start marker bounded by an earlier clock value), exactness,
+idempotence, retention, history-level completeness, and the `start ≤ stored slot` partial invariant
+with its counterexample.  Core Lean only.
+-/
 import Gossamer.Model.C27
 open Gossamer Gossamer.C27
 namespace Gossamer.C27
